@@ -27,6 +27,11 @@ for d in sorted(os.listdir(root)):
             if len(parts) >= 2:
                 matrix[parts[0]] = {'exit': int(parts[1].split('=')[1]), 'classes': parts[2] if len(parts) > 2 and not parts[2].startswith('HARNESS') else ''}
     detected = sorted(k for k, v in matrix.items() if v['exit'] == 1)
+    def rd(name):
+        f = os.path.join(p, name)
+        return open(f).read().strip() if os.path.exists(f) else None
+    suite = rd('suite_with_patch.txt')
+    own = rd('own_check.txt')
     prop = am.get('property', d.split('-')[0])
     meta = {
         'id': d,
@@ -43,6 +48,8 @@ for d in sorted(os.listdir(root)):
             'note': note,
         },
         'checks_run_against_it': 'tools/matrix.sh: git -C /repo apply patch.diff; ./check <ID> quick for every claimed ID; git -C /repo checkout -- .',
+        'whole_suite_with_patch': suite,
+        'own_property_quick_check_with_final_checks': own,
         'detected_by': detected,
         'matrix': matrix,
     }
